@@ -71,12 +71,19 @@ def gen_sequence(rng, cands, spec):
             events.append({'type': 'msg', 'slot': slot, 'key': key, 'thread': thread, 'rec': rec, 'side': m['side'], 'opened_now': opened_now,
                            'name': m['name'], 'role': role_name(rec, m['side']) if opened_now else None, 'reuse_of': m['reuse_of'] if opened_now else None,
                            'owner_of': m.get('owner_of') if opened_now else None,
+                           # on its way to this message the program passed through other libwayland functions on this connection; a
+                           # compositor's destroy listeners may still send events to a client that wl_client_destroy() is tearing down
+                           'enters': ([f for f in rng.sample(sorted(gdbsim.OTHER_FUNCTIONS), rng.randint(1, 3))
+                                       if gdbsim.OTHER_FUNCTIONS[f] in ('connection', 'client' if m['side'] == 'server' else 'display') and f != 'wl_display_disconnect']
+                                      if rng.random() < 0.12 and not opened_now else []),
                            # the user interrupted the program, typed a `wl` command that does not resume, and let it go on with gdb's own `continue`
                            'command_before': rng.choice(['help', 'list ~ 1', 'connection', 'filter', 'matcher wl_surface']) if rng.random() < 0.08 else None})
         else:
             key = slots[slot]
             what = 'never-seen' if not used[slot] else ('known' if key is not None else 'already-closed')
-            events.append({'type': 'destroy', 'slot': slot, 'key': key, 'thread': thread, 'what': what, 'name': model[key]['name'] if key is not None else None})
+            events.append({'type': 'destroy', 'slot': slot, 'key': key, 'thread': thread, 'what': what, 'name': model[key]['name'] if key is not None else None,
+                           # wl_connection_destroy() is reached through wl_display_disconnect() / wl_client_destroy() (its output, if any, counts as the destroy's)
+                           'teardown_first': key is not None and rng.random() < 0.6, 'side': model[key]['side'] if key is not None else None})
             if key is not None:
                 slots[slot] = None
     return events, model
@@ -99,8 +106,18 @@ def execute_shim(events, rng):
                 else:
                     gs.reuse_address(ev['key'], ev['reuse_of'], ev['side'], owner_of=ev.get('owner_of'))
                 slot_key[ev['slot']] = ev['key']
+            for f in ev.get('enters') or ():
+                stop, exc = gs.enter(ev['key'], f, ev['thread'])
+                if stop or exc is not None or gs.written_since(n0):
+                    obs.append({'lines': gs.written_since(n0), 'stop': stop, 'exc': None if exc is None else '%s: %r' % (type(exc).__name__, exc), 'entered': f})
+                    return obs, None
             stop, exc = gs.deliver(gs.event_for(ev['key'], ev['rec'], rng, ev['thread']))
         else:
+            if ev.get('teardown_first'):
+                stop, exc = gs.enter(slot_key[ev['slot']], gdbsim.TEARDOWN[ev['side']], ev['thread'])
+                if stop or exc is not None:
+                    obs.append({'lines': gs.written_since(n0), 'stop': stop, 'exc': None if exc is None else '%s: %r' % (type(exc).__name__, exc), 'entered': gdbsim.TEARDOWN[ev['side']]})
+                    return obs, None
             if ev['what'] == 'never-seen':
                 addr = gs.world.connection()
             else:
@@ -167,6 +184,12 @@ def judge(ctx, events, model, obs, conns, tier):
     full = [dict(e, rec=(None if e.get('rec') is None else {k: v for k, v in e['rec'].items()})) for e in events]
     for step, (ev, ob) in enumerate(zip(events, obs)):
         ctx.ev()
+        if ob.get('entered'):
+            ctx.violation('other-function', '[tier %s] the program entered %s() on connection %s: halted=%r, exception %r, output %r - the plugin has no business there' % (
+                tier, ob['entered'], ev.get('name'), ob['stop'], ob['exc'], ob['lines'][:3]), {'events': case_events[-40:], 'step': step, 'tier': tier, 'full_events': full})
+            return False
+        if ev.get('enters') or ev.get('teardown_first'):
+            ctx.count('other_libwayland_functions_entered', len(ev.get('enters') or ()) + (1 if ev.get('teardown_first') else 0))
         case_events.append([ev['type'], ev['slot'], ev['thread']] + ([ev['rec']['iface'], ev['rec']['name']] if ev['type'] == 'msg' else [ev['what']]))
         case = {'events': case_events[-40:], 'step': step, 'tier': tier, 'full_events': full}
         lines = [l for l in ob['lines'] if not l.startswith('Warning: Got message')]
